@@ -164,6 +164,12 @@ _reserved_prefixes = {
 }
 
 
+def fmt_string_body(s):
+    """Escapes text so that it can be placed between the quotes of an NSString literal."""
+    return (str(s).replace('\\', '\\\\').replace('"', '\\"')
+            .replace('\n', '\\n').replace('\r', '\\r'))
+
+
 def fmt_obj(o):
     assert not isinstance(o, dict), "Only use for base type literals"
     if o is True:
@@ -410,14 +416,14 @@ def fmt_default_value(field):
             bool_str = 'NO'
         return '@{}'.format(bool_str)
     elif is_string_type(field.data_type) or is_bytes_type(field.data_type):
-        return '@"{}"'.format(field.default)
+        return '@"{}"'.format(fmt_string_body(field.default))
     elif is_timestamp_type(field.data_type):
         return fmt_func_call(
             caller=fmt_serial_obj(field.data_type),
             callee='deserialize',
             args=fmt_func_args([
-                ('value', '@"{}"'.format(field.default)),
-                ('dateFormat', '@"{}"'.format(field.data_type.format)),
+                ('value', '@"{}"'.format(fmt_string_body(field.default))),
+                ('dateFormat', '@"{}"'.format(fmt_string_body(field.data_type.format))),
             ]))
     else:
         raise TypeError(
